@@ -8,7 +8,7 @@ CONSTANTS
   NoParam <- NoP
   KwVals <- Kw
   MaxOps = 4
-  CtxPairs <- Pairs
+  CtxPairs <- PairsQ
   Alphabet <- AllOps
 VIEW View
 INVARIANT StackDiscipline
